@@ -62,6 +62,7 @@ class Knobs:
     links: float = 0.25
     notes: float = 0.2
     images: float = 0.2
+    image_same_basename: float = 0.0  # a second image part with the base name of an earlier one (C19, C11 sweeps)
     comments: float = 0.25
     forms: float = 0.1
     math: float = 0.1
@@ -164,6 +165,28 @@ class Gen:
         parent.insert(pos, node)
 
     # --------------------------------------------------------------- rPr
+    def respell(self, pr):
+        """the same recognised formatting spelled differently (w:b / w:b w:val="true" / "1" / "on";
+        another underline style): such runs still merge (round-5 seed C17-merge-key-raw-properties)"""
+        wv = self.q("w", "val")
+        on = ["1", "true", "on"]
+        for x in pr:
+            if not isinstance(x.tag, str):
+                continue
+            loc = etree.QName(x).localname
+            v = x.get(wv)
+            if loc in ("b", "i", "strike", "smallCaps", "caps") and (v is None or v in on):
+                choices = [c for c in [None] + on if c != v]
+                nv = self.r.choice(choices)
+                if nv is None:
+                    del x.attrib[wv]
+                else:
+                    x.set(wv, nv)
+                self.feat("fmt_respelled")
+            elif loc == "u" and v in ("single", "double", "wave"):
+                x.set(wv, self.r.choice([c for c in ("single", "double", "wave") if c != v]))
+                self.feat("fmt_respelled")
+
     def rpr(self):
         if self.p(0.45):
             return None
@@ -288,8 +311,15 @@ class Gen:
         kind = self.r.random()
         blip_attrs = {}
         if kind < 0.75:
+            if self.images and self.p(self.k.image_same_basename):
+                # a second image part with the base name of an earlier one, in another directory
+                # (outside C11's "file names being distinct"; inside C19's image-folder clause)
+                base = self.r.choice(sorted(self.images)).rsplit("/", 1)[-1]
+                if f"media2/{base}" not in self.images:
+                    name = f"media2/{base}"
+                    self.feat("image_same_basename")
             self.images[name] = self.payload()
-            blip_attrs["r:embed"] = self.add_rel("image", f"media/{name}")
+            blip_attrs["r:embed"] = self.add_rel("image", name if name.startswith("media2/") else f"media/{name}")
         elif kind < 0.85:
             blip_attrs["r:embed"] = "rId999"  # dangling
             if self.cur_part != "document" and self.p(0.6):
@@ -378,6 +408,18 @@ class Gen:
         content = self.E("w:txbxContent", {}, *[self.paragraph(simple=True, allow_nested=self.depth < 3 and self.p(0.5))
                                                   for _ in range(self.r.randint(1, 2))])
         self.depth -= 1
+        if self.p(0.35):
+            # a styled paragraph inside the text box (its host paragraph may have no w:pPr at all:
+            # round-5 seeds C05-gather-sub-vals-descendants, C07-pstyle-from-descendants)
+            inner = content[0]
+            ppr = inner.find(self.q("w", "pPr"))
+            if ppr is None:
+                ppr = self.E("w:pPr", {})
+                inner.insert(0, ppr)
+            if ppr.find(self.q("w", "pStyle")) is None:
+                ppr.insert(0, self.E("w:pStyle", {"w:val": self.r.choice(["Heading2", "Heading3", "Quote"])}))
+                self.feat("pstyle")
+                self.feat("styled_textbox_par")
         return self.E("w:pict", {}, self.E("v:shape", {"id": "tb"}, self.E("v:textbox", {}, content)))
 
     def math(self):
@@ -520,6 +562,8 @@ class Gen:
                 pr_ = None
                 if self.p(0.6) and base_rpr is not None:
                     pr_ = etree.fromstring(etree.tostring(base_rpr))
+                    if self.p(0.3):
+                        self.respell(pr_)
                 elif self.p(0.5):
                     pr_ = self.rpr()
                     base_rpr = pr_ if pr_ is None else etree.fromstring(etree.tostring(pr_))
@@ -955,7 +999,7 @@ def gen_package(rng: random.Random, knobs: Knobs | None = None, ns=None) -> Pkg:
             continue
         pkg.rels[part_rels[part]] = rows
     for name, data in g.images.items():
-        pkg.binaries[f"word/media/{name}"] = data
+        pkg.binaries[f"word/{name}" if name.startswith("media2/") else f"word/media/{name}"] = data
     if g.p(0.2):
         pkg.binaries["customXml/item1.xml"] = b"<x/>"
     if g.p(0.12):
